@@ -568,18 +568,9 @@ class Exprs:
     def local(self, l, depth, stack):
         fn = self.fn
         if 1 <= l <= fn["argc"]:
-            ds = self.defs.get(l, [])
-            if not ds or depth > self.max_depth or l in stack:
-                return Ex("param", l - 1)
-            # a `mut` parameter that the body reassigns (`height = height_accepted + 1` in a loop): the parameter or any of the assigned values
-            stack = stack + (l,)
-            outs = [Ex("param", l - 1)]
-            for kind, bi, x in ds[:6]:
-                outs.append(self.rvalue(x, depth + 1, stack) if kind == "st" else self.call(x, depth + 1, stack))
-            uniq = {}
-            for o in outs:
-                uniq[render(o)] = o
-            return list(uniq.values())[0] if len(uniq) == 1 else Ex("phi", None, list(uniq.values()))
+            # a `mut` parameter that the body reassigns keeps the parameter atom: the slice is flow-insensitive, and a test made before the
+            # first reassignment (`if size == 0 { return }`) must read the same whether the parameter or a shadowing local is mutated
+            return Ex("param", l - 1)
         if depth > self.max_depth or l in stack:
             return Ex("local", l)
         ds = self.defs.get(l, [])
@@ -654,7 +645,22 @@ def subst(e, args, depth=0):
     return Ex(e.kind, e.a, kids, f=e.f)
 
 
-def atoms(e, out=None, depth=0):
+def _range_of(e):
+    """`Iterator::next(into_iter(Range{a, b}))` -> the Range aggregate; None for any other call."""
+    if e.kind != "call" or not e.a.endswith("Iterator::next") or not e.kids:
+        return None
+    x = e.kids[0]
+    for _ in range(4):
+        if x.kind == "agg" and x.a.startswith("Range::") and len(x.kids) == 2:
+            return x
+        if x.kind == "call" and x.kids and x.a.endswith(("IntoIterator::into_iter", "Iterator::by_ref")):
+            x = x.kids[0]
+        else:
+            return None
+    return None
+
+
+def atoms(e, out=None, depth=0, ranges=False):
     """Leaf descriptors an expression is computed from."""
     if out is None:
         out = set()
@@ -666,11 +672,19 @@ def atoms(e, out=None, depth=0):
     elif k == "field":
         r = render(e)
         out.add(r)
-        atoms(e.kids[0], out, depth + 1)
+        atoms(e.kids[0], out, depth + 1, ranges)
     elif k == "call":
+        rng = _range_of(e) if ranges else None
+        if rng is not None:
+            # the element of `for n in a..b` is the counter `n = a; .. n += 1` (the bound b is what the loop test compares it with)
+            out.add("op:Add")
+            out.add("const:1")
+            if rng.kids:
+                atoms(rng.kids[0], out, depth + 1, ranges)
+            return out
         out.add("call:" + e.a)
         for x in e.kids:
-            atoms(x, out, depth + 1)
+            atoms(x, out, depth + 1, ranges)
     elif k == "const":
         out.add("const:%s" % e.a)
     elif k == "item":
@@ -678,10 +692,10 @@ def atoms(e, out=None, depth=0):
     elif k in ("bin", "un"):
         out.add("op:" + e.a)
         for x in e.kids:
-            atoms(x, out, depth + 1)
+            atoms(x, out, depth + 1, ranges)
     else:
         for x in e.kids:
-            atoms(x, out, depth + 1)
+            atoms(x, out, depth + 1, ranges)
     return out
 
 
